@@ -187,6 +187,7 @@ func init() {
 		lightFillSetsRecs := assignsField("cindex", "lightFill", "Recs")
 		dropsStale := callsMethod("cindex", "syncChunks", "dropStale")
 		dropStaleStrict := false // stale means Count() > Recs
+		dropOnlyLoaded := false  // … and only for entries read from the snapshot file (`c.loaded && …`, fix 7ea0278)
 		if fd := funcDecl(fc, "sortedChunks", "dropStale"); fd != nil {
 			ast.Inspect(fd.Body, func(n ast.Node) bool {
 				if be, ok := n.(*ast.BinaryExpr); ok && be.Op == token.GTR {
@@ -194,8 +195,52 @@ func init() {
 						dropStaleStrict = true
 					}
 				}
+				if be, ok := n.(*ast.BinaryExpr); ok && be.Op == token.LAND {
+					hasLoaded, hasCmp := false, false
+					ast.Inspect(be, func(m ast.Node) bool {
+						if se, ok := m.(*ast.SelectorExpr); ok && se.Sel.Name == "loaded" {
+							hasLoaded = true
+						}
+						if b2, ok := m.(*ast.BinaryExpr); ok && b2.Op == token.GTR {
+							if se, ok := b2.Y.(*ast.SelectorExpr); ok && se.Sel.Name == "Recs" {
+								hasCmp = true
+							}
+						}
+						return true
+					})
+					if hasLoaded && hasCmp {
+						dropOnlyLoaded = true
+					}
+				}
 				return true
 			})
+		}
+		// onWrite on a snapshot entry that does not account for the records in front of the batch: handled as a chunk notified from the middle
+		onWriteLoadedMiddle := false
+		if fd := funcDecl(fc, "cindex", "onWrite"); fd != nil {
+			ast.Inspect(fd.Body, func(n ast.Node) bool {
+				if is, ok := n.(*ast.IfStmt); ok {
+					hasLoaded, hasCmp := false, false
+					ast.Inspect(is.Cond, func(m ast.Node) bool {
+						if se, ok := m.(*ast.SelectorExpr); ok && se.Sel.Name == "loaded" {
+							hasLoaded = true
+						}
+						if b2, ok := m.(*ast.BinaryExpr); ok && b2.Op == token.GTR {
+							if se, ok := b2.Y.(*ast.SelectorExpr); ok && se.Sel.Name == "Recs" {
+								hasCmp = true
+							}
+						}
+						return true
+					})
+					if hasLoaded && hasCmp {
+						onWriteLoadedMiddle = true
+					}
+				}
+				return true
+			})
+		}
+		if dropOnlyLoaded != onWriteLoadedMiddle {
+			problem("cindex: snapshot-entry handling only partly recognised: dropStale tests loaded=%v, onWrite treats a loaded entry written beyond Recs as new=%v", dropOnlyLoaded, onWriteLoadedMiddle)
 		}
 		staleRepair := onWriteSetsRecs && lightFillSetsRecs && dropsStale && dropStaleStrict
 		if (onWriteSetsRecs || lightFillSetsRecs || dropsStale) && !staleRepair {
@@ -396,6 +441,8 @@ func init() {
 		l.p("def rebuildSegmentMaxInit : Int := %s", segMaxInit)
 		l.p("/-- `syncChunks` drops what the index knows about a chunk that holds more records than the entry accounts for (`Recs`, set by `onWrite` and `lightFill`); the chunk is then light-filled like an unknown one (fix a2ca477) -/")
 		l.p("def syncChunksDropsStaleEntries : Bool := %s", leanBool(staleRepair))
+		l.p("/-- … but only entries read from the snapshot file at start (`loaded`), compared once; `onWrite` on such an entry beyond the records it accounts for treats the chunk as notified from the middle (fix 7ea0278). Entries of a running server are never dropped. -/")
+		l.p("def staleDropOnlyForSnapshotEntries : Bool := %s", leanBool(dropOnlyLoaded && onWriteLoadedMiddle))
 		l.p("/-- `lightFill` treats `MaxTs > 0` as \"hull known\" -/")
 		l.p("def lightFillKnownMeansPositive : Bool := %s", leanBool(lightFillPositive))
 		l.p("/-- `maxRecsPerBlock`: records per index block -/")
